@@ -233,11 +233,20 @@ def coq_run_obs(obs):
     return P(L(obs["outs"], coq_out), O(obs["raised"], coq_err), Nat(obs["acc"]), Nat(obs["rej"]))
 
 
-def run_reader(cid, spec, text, mode, limit):
+def run_reader(cid, spec, text, mode, limit, decoy_text=None):
     """`with Reader(...) as r: for row in r.rows()` - the body of cutplace.rows() - plus the counters"""
     outs = []
     raised = None
     reader = validio.Reader(cid, io.StringIO(text, newline=""), on_error=mode, validate_until=limit)
+    if decoy_text is not None:
+        # another data set read with the same CID between the construction of the reader under test and its use:
+        # "decided over the whole data set" means this data set only
+        try:
+            with validio.Reader(cid, io.StringIO(decoy_text, newline=""), on_error="continue") as other:
+                for _ in other.rows():
+                    pass
+        except Exception:  # noqa
+            pass
     try:
         with reader:
             for r in reader.rows():
